@@ -35,6 +35,20 @@ META = {
         note="Trusted: the reference model (Criterion/ControlModel in props/training_sim.py); metrics on the k/8 grid (exact in the CSV's 5 significant digits); learning rates compared to print precision; RESTART_NOLOAD judged on decisions/history only.",
         technique="deterministic simulation: restart histories on a simulated FS against an executable reference model and an uninterrupted twin",
     ),
+    "C13": dict(
+        category="exploration",
+        text="W simulated ranks (torch.distributed rank/world-size queries answered by the simulator) each own a real sampler; a seeded interleaving of per-rank STEP / RESTART / JUMP / PEEK operations and global-RNG perturbations is executed, and the recorded (rank, epoch) -> index-list table is judged: same list however reached, len() = number yielded, per-epoch lists pairwise disjoint and covering (or equal counts when dropping), raise iff indivisible under the strict setting, full epoch under ignore, order independent of rank and world size.",
+        design="DESIGN.md section 4 (C13), 3.5",
+        note="Trusted: SimDist answers is_initialized/get_rank/get_world_size (no process group, no collectives); all ranks share one interpreter and its global RNGs (which is the hazard under test); ranks of a real job are assumed to seed torch identically before building samplers.",
+        technique="deterministic simulation: simulated ranks, seeded interleaving of sampler operations with rank restarts and RNG perturbation, history oracle",
+    ),
+    "C14": dict(
+        category="exploration",
+        text="The C13 job one level up: each simulated rank owns a real SpectDataLoader / LangDataLoader / ContextWindowDataLoader over a generated data directory in the simulated file system (or a bare BucketBatchSampler with arbitrary maps); epochs, rank restarts, epoch jumps and RNG perturbations are interleaved by the seed. After every epoch: len() vs batches yielded, every batch in one bucket / in sampler order / of the bucket's size with short batches only at the tail, exactly-once delivery (or documented drops), the bucket map is a partition into length classes with documented sizes, lossless collation against an independent float64 reference pipeline (mvn, deltas, context windows, sos/eos), padding values, ids on rows; over the history: identical batches for identical (seed, epoch).",
+        design="DESIGN.md section 4 (C14)",
+        note="Trusted: SimFS/SimDist stubs; num_workers=0; rows are mapped to utterances by content when ids are suppressed; the per-rank sampler order is taken from the sampler's public API (its correctness is C13); reference transforms in props/corpus.py.",
+        technique="deterministic simulation: simulated ranks and file system, seeded epoch/restart/jump histories, per-epoch invariants + reproducibility history oracle",
+    ),
 }
 
 
